@@ -47,7 +47,7 @@ def _case(draw):
             "perm_seed": draw(st.lists(st.integers(0, 10**6), min_size=n, max_size=n)),
             "p": draw(st.one_of(st.integers(1, 16).map(lambda k: k / 16.0), gen.fl(0.001, 1.0))),
             "p2": draw(st.integers(1, 16).map(lambda k: k / 16.0)),
-            "scale": draw(st.sampled_from([0.25, 2.0, 1024.0])),
+            "scale": draw(st.sampled_from([0.25, 2.0, 1024.0, 2.0**-30, 2.0**-40, 2.0**30])),  # footprints in other units
             "coords": draw(st.sampled_from(["1d", "2d"])),
             "layout": draw(st.sampled_from(["C", "C", "F", "view"])),
             "stack": draw(st.integers(1, 3)), "level": 0}
